@@ -1067,9 +1067,19 @@ func (e *Env) call(n *ast.CallExpr) Value {
 			if s.Obj == nil {
 				return e.ex.G.StrConst("")
 			}
-			back, ok := e.ex.readPath(e.st, e.derefObj(s.Obj), s.Path, s.Obj.Typ).(*Term)
+			bv := e.ex.readPath(e.st, e.derefObj(s.Obj), s.Path, s.Obj.Typ)
+			back, ok := bv.(*Term)
 			if ok && back.Sort == SB {
 				return e.ex.G.BSub(back, s.Off, s.Len)
+			}
+			if s.Len.IsConstInt() && s.Len.I.Sign() == 0 {
+				return e.ex.G.StrConst("")
+			}
+			if av, isArr := bv.(*ArrV); isArr && isByte(av.Elem) && s.Off.IsConstInt() && s.Len.IsConstInt() && s.Off.I.IsInt64() && s.Len.I.IsInt64() {
+				lo, n := int(s.Off.I.Int64()), int(s.Len.I.Int64())
+				if lo >= 0 && n >= 0 && lo+n <= len(av.E) {
+					return e.ex.bytesOfCells(av.E[lo : lo+n])
+				}
 			}
 		case *Term:
 			if s.Sort == SB {
